@@ -24,6 +24,9 @@ type C14Case struct {
 	UsedRecv bool `json:"usedRecv,omitempty"`
 	// RecvCM (with UsedRecv): the used receiver is a live column-major masked matrix built by the constructor
 	RecvCM bool `json:"recvCM,omitempty"`
+	// RecvView: the receiver is a view of a live tensor, with as many elements of the same type as the stream
+	// holds: decoding gives the receiver storage of its own, the parent keeps its elements
+	RecvView bool `json:"recvView,omitempty"`
 	// BackedRecv: the receiver was built over a slice the caller holds (float tensors: with their engine)
 	BackedRecv bool `json:"backedRecv,omitempty"`
 }
@@ -35,7 +38,7 @@ func (c *C14Case) NTKey() string {
 	if c.A.L.IsContig() && !c.A.L.IsCM() && c.A.Mask == nil && len(c.A.Shape) == 2 && d.IsFloat() {
 		return ""
 	}
-	return fmt.Sprintf("%s|%s|%v|%v|%v|%s|%s|%v|%v|%v", c.Format, c.DT, c.A.Shape, c.A.L, c.A.Mask != nil, c.Then, c.Reader, c.UsedRecv, c.BackedRecv, c.RecvCM)
+	return fmt.Sprintf("%s|%s|%v|%v|%v|%s|%s|%v|%v|%v|%v", c.Format, c.DT, c.A.Shape, c.A.L, c.A.Mask != nil, c.Then, c.Reader, c.UsedRecv, c.BackedRecv, c.RecvCM, c.RecvView)
 }
 
 // formatAccepts: the element types each format documents.
@@ -240,6 +243,20 @@ func (c *C14Case) Run() string {
 			rec.Class("receiver:live-column-major")
 		}
 	}
+	var viewParent *tensor.Dense
+	var viewParentVals []interface{}
+	if c.RecvView && !c.UsedRecv && len(A.arr.Shape) > 0 && d.Name != "unsafe.Pointer" {
+		n := prod(A.arr.Shape)
+		prev := seqArr(d, []int{n + 2}, 9)
+		viewParent = tensor.New(tensor.WithShape(n+2), tensor.WithBacking(mkBacking(d, prev.E)))
+		viewParentVals = prev.E
+		if v, err := viewParent.Slice(RS{1, n + 1, 1}); err == nil {
+			dec = v.(*tensor.Dense)
+			rec.Class("receiver:view")
+		} else {
+			viewParent = nil
+		}
+	}
 	// ... or the receiver is a tensor the caller built over a slice of its own (with one of the engines):
 	// decoding into it gives it new storage, the caller's slice stays as it was
 	var held interface{}
@@ -259,6 +276,14 @@ func (c *C14Case) Run() string {
 	}
 	var derr error
 	pan = try(func() { _, derr = c14DecodeInto(dec, c.Format, enc, d, c.Reader) })
+	if viewParent != nil && pan == "" && derr == nil {
+		now := backingVals(viewParent.Data())
+		for k := range viewParentVals {
+			if !bitEqVal(now[k], viewParentVals[k]) {
+				return desc + fmt.Sprintf(": decoding into a view overwrote the tensor it was a view of: element %d was %s, is %s", k, fmtVal(viewParentVals[k]), fmtVal(now[k]))
+			}
+		}
+	}
 	if held != nil && pan == "" && derr == nil {
 		now := backingVals(held)
 		for k := range heldVals {
@@ -485,6 +510,7 @@ func genC14(rt *rapid.T, format string, d DT, lk string, masked bool) *C14Case {
 	c.UsedRecv = rapid.IntRange(0, 3).Draw(rt, "usedrecv") == 0
 	c.RecvCM = c.UsedRecv && rapid.Bool().Draw(rt, "recvcm")
 	c.BackedRecv = !c.UsedRecv && rapid.IntRange(0, 3).Draw(rt, "backedrecv") == 0
+	c.RecvView = !c.UsedRecv && !c.BackedRecv && rapid.IntRange(0, 3).Draw(rt, "recvview") == 0
 	if !masked && rapid.IntRange(0, 2).Draw(rt, "chain") == 0 {
 		c.Then = rapid.SampledFrom([]string{"gob", "npy", "csv", "pb", "fb"}).Draw(rt, "then")
 	}
